@@ -49,7 +49,8 @@ def generate(seed, tier):
     obs = gen_observers(rng)
     if rng.random() < 0.7:
         obs.append({"t": "composite"})
-    ops = gen_dispatch_ops(rng, n_ops(spec), p_query=0.05, p_invalid=0.04)
+    ops = gen_dispatch_ops(rng, n_ops(spec), p_query=0.05, p_invalid=0.04, p_reset=0.04 if rng.random() < 0.5 else 0.0,
+                           episodes=2 if rng.random() < 0.15 else 1)
     return {"prop": PROP, "cfg": {"instance": spec, "filter": names, "filter_style": style, "observers": obs}, "ops": ops}
 
 
@@ -109,6 +110,9 @@ def check_composite(w, comp, when):
 
 class H(Hooks):
     def after(self, w, i, kind, info):
+        if kind == "reset":
+            compare_features(w, f"after reset #{w.n_resets}")
+            w.ctx.probe("features_checked_after_reset")
         if kind == "dispatch":
             compare_features(w, f"after dispatch #{len(w.model.hist)}")
             m = w.model
